@@ -21,6 +21,7 @@ func init() {
 			"O2 dirty flag covers every write (R-DOM): every record/index write of package dspinner is dominated, in its function, by a call of the dirty-flag marker (role: the function that Puts 1 under dirtyKey), or the function is the recovery path whose every call site is guarded by 'persisted flag == 1'; and no write can follow a call that may clear the flag (anything reaching the cleaner, e.g. flushPins) without a new marker call in between; " +
 			"O3 flag protocol (R-DOM/R-CONST/R-WHO): the marker writes the flag whenever the state was clean (dirty==clean compared before the counter is bumped) and Syncs it on the Put's nil edge; the cleaner stores clean=dirty only on the nil edges of Put(dirtyKey,0) and Sync(dirtyKey); the cleaner is called only on the nil edge of a Datastore.Sync of a key that is a path prefix of every pin/index key constant; marker, cleaner and the test in New agree on the flag constants; New returns a pinner, when the persisted flag equals the marker value, only after the recovery function succeeded; dirty/clean counters are stored only by marker, cleaner and the constructor. " +
 			"O4 index removals scoped to the record (R-FLOW/R-DOM): an Indexer.Delete names the id of a pin object and, on the CID indexes, the key of that pin's own CID; a whole-key removal (DeleteKey/DeleteAll) is allowed only as the dangling-entry repair - in a function that searched the same index under the same key and on the not-found edge of reading back a record whose id came from that search (so every record under the key is being dropped or does not exist); a key passed as a parameter is followed to every call site. " +
+			"O5 recovery (R-DOM): every index Add of the recovery pass lies on the false edge of a HasValue probe of the same index for the same key and id. " +
 			"NOT decided: that rebuildIndexes reconstructs exactly the model state, datastore-level atomicity of a single Put/Delete, errors of the marker's own Put (it only logs), behaviour under datastore faults.",
 		Assume:    []string{"a datastore write is atomic and persisted when it returns (the property's crash model)", "only package dspinner writes below /pins"},
 		Technique: "role-based call classification, SSA dominance and edge-guard queries (R-DOM), reachability with blocking sets (R-POST), constants from types (R-CONST), writer sets (R-WHO)",
@@ -39,6 +40,7 @@ func runC23(c *an.Ctx) {
 	c23O2(m)
 	c23O3(m)
 	c23O4(m)
+	c23O5(m)
 	c22SweepImplementers(c, "O2", m.p.Named(c22Pin, "Pinner"), c22Pkg+".pinner")
 }
 
@@ -1341,4 +1343,49 @@ func c23O4(m *c22Model) {
 	}
 	c.Min("O4 Indexer.Delete calls", nDel, 4)
 	c.Min("O4 index removals (Delete + DeleteKey)", nDel+nKey, 7)
+}
+
+// O5: the recovery pass restores exactly what is missing. Every index Add made
+// by the recovery function (role: the function whose every call is guarded by
+// the persisted dirty flag) lies on the 'false' edge of a HasValue probe of the
+// same index for the same key and the same value: the entry is written into the
+// index that was probed, and only when it is missing.
+func c23O5(m *c22Model) {
+	c := m.c
+	n := 0
+	for _, fn := range m.fns {
+		if fn.Parent() != nil {
+			continue
+		}
+		if ok, _ := c23IsRecovery(m, fn); !ok {
+			continue
+		}
+		name := an.FuncName(fn)
+		for _, add := range an.AllCalls(fn) {
+			if !c22IsIndexerCall(an.Callee(add), "Add") {
+				continue
+			}
+			a := an.Args(add)
+			if len(a) < 3 {
+				continue
+			}
+			n++
+			edges := an.EdgeSet{}
+			for _, hv := range an.AllCalls(fn) {
+				if !c22IsIndexerCall(an.Callee(hv), "HasValue") {
+					continue
+				}
+				h := an.Args(hv)
+				if len(h) < 3 || !an.SameObj(an.Recv(hv), an.Recv(add)) || !an.SameObj(h[1], a[1]) || !an.SameObj(h[2], a[2]) {
+					continue
+				}
+				edges = edges.Union(an.BoolEdges(fn, an.Result(hv, 0), false))
+			}
+			ok := len(edges) > 0 && an.GuardedBy(fn, nil, add, edges)
+			c.Check(ok, "O5", "R-DOM", name, c22CallLabel(add)+"<=HasValue(same index,key,id)==false", add.Pos(),
+				"recovery adds an index entry only where the same index was probed for the same (key, id) and did not hold it",
+				"the recovery pass adds an index entry that is not on the 'missing' edge of a HasValue probe of the same index for the same key and id: the missing entry of the pin's own index is not restored (the pinned CID is not pinned after reopening) or a present one is rewritten while a missing one is skipped")
+		}
+	}
+	c.Min("O5 index repairs in the recovery pass", n, 2)
 }
